@@ -83,6 +83,48 @@ def _custom_wrapper_receivers(program: Program, c, name: str) -> list:
     return out
 
 
+
+def _replace_chain(v):
+    """[(old, new), ...] in application order when the value is <something>.replace(c1, c2).replace(c3, c4)... with
+    constant arguments (None otherwise)"""
+    from ..symex import Const as _C, Sym as _S
+    chain = []
+    while isinstance(v, _S) and v.kind == "call" and v.args and v.args[0] == ".replace" and len(v.args) == 4:
+        def conc(x):
+            if isinstance(x, _C) and isinstance(x.value, str):
+                return x.value
+            if isinstance(x, Str) and all(isinstance(p_, Lit) for p_ in x.parts):
+                return "".join(p_.text for p_ in x.parts)        # `"\\" + quote_char` with a known quote character
+            return None
+        a, b = conc(v.args[2]), conc(v.args[3])
+        if a is None or b is None:
+            return None
+        chain.append((a, b))
+        v = v.args[1]
+    if not chain:
+        return None
+    return list(reversed(chain))
+
+
+def _json_reads_back(probe: str, chain, q: str) -> bool:
+    text = probe
+    for old, new in chain:
+        text = text.replace(old, new)
+    out, i = [], 0
+    while i < len(text):
+        ch = text[i]
+        if ch == "\\":
+            if i + 1 >= len(text) or text[i + 1] not in ("\\", q):
+                return False
+            out.append(text[i + 1])
+            i += 2
+        elif ch == q:
+            return False            # the string ends here
+        else:
+            out.append(ch)
+            i += 1
+    return "".join(out) == probe
+
 def check(program: Program, run: Run) -> None:
     run.explanation = (
         "Escaping discipline at every site that wraps text in the string quote, decided on the render skeletons: every span "
@@ -133,6 +175,12 @@ def check(program: Program, run: Run) -> None:
                             continue
                         jt = show(p_.value if isinstance(p_, Hole) else p_, -20)
                         jok = ".replace(" in jt and "'\\\\'" in jt
+                        chain = _replace_chain(p_.value if isinstance(p_, Hole) else p_)
+                        if jok and chain is not None:
+                            # decided exactly: the replacements are applied, in their order, to probe strings; the result
+                            # must read back as the probe under JSON string syntax (backslash first, or the backslash
+                            # that escapes the delimiter is doubled again)
+                            jok = all(_json_reads_back(pr, chain, '"') for pr in ("\\", '"', 'a\\"b', '\\\\"', "plain", '"\\'))
                         jsrc = getattr(p_, "src", ()) or ()
                         jfn = jsrc[0] if jsrc else f.qualname
                         jchain = [x for x in (jsrc[3] if len(jsrc) > 3 else ()) if not is_module_function(program, x)]
